@@ -81,17 +81,27 @@ Definition Q_EQ : bytes := [113; 61].      (* q= *)
 Definition COMMA : byte := 44.
 Definition SEMI : byte := 59.
 
-(* for !HasPrefix(s,q=) && s nonempty && !HasPrefix(s,comma) { s = skipSpace(s[1:]) }
-   entered with s already space-skipped *)
-Fixpoint seek_q (s : bytes) : bytes :=
+(* looking for the weight among the parameters (entered with s space-skipped, at the start of a parameter):
+     for !HasPrefix(s,q=) && s nonempty && !HasPrefix(s,comma) {
+        for s nonempty && !HasPrefix(s,semicolon) && !HasPrefix(s,comma) { s = s[1:] }   -- skip this parameter
+        if HasPrefix(s,semicolon) { s = skipSpace(s[1:]) } }
+   as one structural scan: at_start = at the start of a parameter (spaces still to be skipped) *)
+Fixpoint seek_q_at (at_start : bool) (s : bytes) : bytes :=
   match s with
   | [] => []
   | c :: r =>
-    if is_space c then seek_q r
-    else if has_prefix Q_EQ s then s
-    else if Nat.eqb c COMMA then s
-    else seek_q r
+    if at_start then
+      if is_space c then seek_q_at true r
+      else if has_prefix Q_EQ s then s
+      else if Nat.eqb c COMMA then s
+      else if Nat.eqb c SEMI then seek_q_at true r
+      else seek_q_at false r
+    else
+      if Nat.eqb c SEMI then seek_q_at true r
+      else if Nat.eqb c COMMA then s
+      else seek_q_at false r
   end.
+Definition seek_q (s : bytes) : bytes := seek_q_at true s.
 
 (* after the weight: if a semicolon follows, everything up to the next comma is ignored *)
 Fixpoint to_comma (s : bytes) : bytes :=
